@@ -1,9 +1,60 @@
 import SoundeventModel.Ops.Common
+import SoundeventModel.Bounds
 namespace SE.Ops.C05
-open Lean SE
+open Lean SE SE.Bnd
 
-def handle (op : String) (_a : Json) : Except String Json := do
+def polyJ (p : List Pt × List (List Pt)) : Json :=
+  Json.mkObj [("shell", ptsJ p.1), ("holes", ringsJ p.2)]
+
+def shapeJ (s : Shape) : Json :=
+  let k : (String × Json) := ("kind", Json.str s.kind)
+  match s with
+  | .point p => Json.mkObj [k, ("coords", pairJ p)]
+  | .lineString pts => Json.mkObj [k, ("coords", ptsJ pts)]
+  | .polygon shell holes => Json.mkObj [k, ("shell", ptsJ shell), ("holes", ringsJ holes)]
+  | .multiPoint pts => Json.mkObj [k, ("parts", ptsJ pts)]
+  | .multiLineString ls => Json.mkObj [k, ("parts", ringsJ ls)]
+  | .multiPolygon ps => Json.mkObj [k, ("parts", arrJ (ps.map polyJ))]
+
+def featuresJ (fs : List (String × Rat)) : Json :=
+  arrJ (fs.map fun nv => arrJ [Json.str nv.1, ratJ nv.2])
+
+def handle (op : String) (a : Json) : Except String Json := do
   match op with
+  | "bounds" =>
+    return valJ (boundsJ (← geomBounds (← getGeom (← fld a "g"))))
+  | "features" =>
+    match features (← getGeom (← fld a "g")) with
+    | some fs => return valJ (featuresJ fs)
+    | none => .error "geometry without points"
+  | "point" =>
+    let b ← geomBounds (← getGeom (← fld a "g"))
+    -- `lib`: shapely's centroid / point_on_surface when the harness passes it (else unused)
+    let lib : Pt ← match fldOpt a "lib" with
+      | some j => getPair j
+      | none => pure (0, 0)
+    return exceptJ pairJ (pointAt (fun _ => lib) (← fldStr a "pos") b)
+  | "shape" =>
+    return valJ (shapeJ (toShape (← getGeom (← fld a "g"))))
+  | "inside" =>
+    let b ← geomBounds (← getGeom (← fld a "g"))
+    let p ← getPair (← fld a "p")
+    match ← fldOptRat a "tol" with
+    | some tol => return valJ (boolJ (insideTol tol b p))
+    | none => return valJ (boolJ (inside b p))
+  | "holds_bounds" =>
+    -- executable statement of the bounds clause on the implementation's observed output
+    let g ← getGeom (← fld a "g")
+    return valJ (boolJ (!(HolesInside g) || boundsHolds g (← getBounds (← fld a "b"))))
+  | "holds_features" =>
+    let g ← getGeom (← fld a "g")
+    let fs ← (← fldArr a "fs").mapM fun j => do
+      match ← getArr j with
+      | [n, v] => pure ((← n.getStr?), (← getRat v))
+      | _ => throw "feature arity"
+    return valJ (boolJ (featuresHolds g (← getBounds (← fld a "b")) fs))
+  | "holes_inside" =>
+    return valJ (boolJ (HolesInside (← getGeom (← fld a "g"))))
   | _ => .error s!"C05: unknown op {op}"
 
 end SE.Ops.C05
